@@ -200,6 +200,8 @@ class Check:
     clauses: list
     assumptions: list = field(default_factory=list)
     extra: Callable[[], dict] | None = None  # extra coverage keys computed at the end
+    hang_is_violation: bool = False  # a case on which the code under test never returns: violation (C15) or harness error
+    hang_limit_s: float = 420.0  # seconds without a heartbeat before a worker is declared stuck
 
 
 # ----------------------------------------------------------------------------
@@ -265,8 +267,31 @@ def _derive_seed(seed: int, name: str, shard: int) -> int:
     return int.from_bytes(h, "big")
 
 
+import pickle as _pickle  # noqa: E402
+
+_HB_FD = None
+_HB = None  # (shared array of heartbeat times, worker index, path of the in-flight case file) - set in worker processes
+
+
+def _heartbeat(case=None):
+    if _HB is None:
+        return
+    global _HB_FD
+    hb, idx, path = _HB
+    hb[idx] = time.time()
+    if case is not None:
+        try:
+            if _HB_FD is None:
+                _HB_FD = os.open(path, os.O_RDWR | os.O_CREAT, 0o600)
+            data = _pickle.dumps(case, protocol=_pickle.HIGHEST_PROTOCOL)
+            os.pwrite(_HB_FD, len(data).to_bytes(8, "big") + data, 0)  # one syscall; length-prefixed, no truncate needed
+        except Exception:  # noqa: BLE001
+            pass
+
+
 def _run_oracle(clause, case, stats: _Stats, known_sigs):
     """Run the oracle once; returns True if passed (or known), raises Violation otherwise."""
+    _heartbeat(case)
     try:
         info = clause.oracle(case)
     except Violation as v:
@@ -470,28 +495,123 @@ def run_check(check: Check, tier: str, seed: int, only_clauses: Iterable[str] | 
     }
     errors = []
     ctx = mp.get_context("fork")
-    # longest jobs first is unknown; interleave clauses for balance
-    with ctx.Pool(min(NPROC, max(1, len(jobs)))) as pool:
-        for res in pool.imap_unordered(_job, jobs, chunksize=1):
-            cname = check.clauses[res["ci"]].name
-            if res.get("error"):
-                errors.append((cname, res["error"]))
-                continue
-            pc = per_clause[cname]
-            pc["evals"] += res["evals"]
-            if isinstance(res["hashes"], set):
-                pc["hashes"] |= res["hashes"]
-            else:
-                pc["count"] += int(res["hashes"])
-            for k, v in res["classes"].items():
-                pc["classes"][k] = pc["classes"].get(k, 0) + v
-            if len(pc["samples"]) < 4:
-                pc["samples"].extend(res["samples"][: 4 - len(pc["samples"])])
-            for k, v in res["excluded_known"].items():
-                pc["excluded"][k] = pc["excluded"].get(k, 0) + v
-            pc["wall"] += res["wall"]
-            if res["failure"] is not None and pc["failure"] is None:
-                pc["failure"] = res["failure"]
+
+    def merge(res):
+        cname = check.clauses[res["ci"]].name
+        if res.get("error"):
+            errors.append((cname, res["error"]))
+            return
+        pc = per_clause[cname]
+        pc["evals"] += res["evals"]
+        if isinstance(res["hashes"], set):
+            pc["hashes"] |= res["hashes"]
+        else:
+            pc["count"] += int(res["hashes"])
+        for k, v in res["classes"].items():
+            pc["classes"][k] = pc["classes"].get(k, 0) + v
+        if len(pc["samples"]) < 4:
+            pc["samples"].extend(res["samples"][: 4 - len(pc["samples"])])
+        for k, v in res["excluded_known"].items():
+            pc["excluded"][k] = pc["excluded"].get(k, 0) + v
+        pc["wall"] += res["wall"]
+        if res["failure"] is not None and pc["failure"] is None:
+            pc["failure"] = res["failure"]
+
+    # Own worker pool (instead of multiprocessing.Pool) so that a worker stuck inside non-interruptible C code can be
+    # detected (heartbeat), its in-flight case recovered, and the worker replaced.
+    import pickle
+    import queue as _queue
+    import tempfile
+
+    nworkers = min(NPROC, max(1, len(jobs)))
+    hb = ctx.Array("d", nworkers, lock=False)
+    busy = ctx.Array("i", nworkers, lock=False)  # job index + 1 currently held by the worker, 0 = idle
+    tmpdir = tempfile.mkdtemp(prefix="verif-inflight-")
+    job_q = ctx.Queue()
+    res_q = ctx.Queue()
+    for ji, job in enumerate(jobs):
+        job_q.put((ji, job))
+
+    def worker_main(idx):
+        global _HB, _HB_FD
+        _HB = (hb, idx, os.path.join(tmpdir, f"w{idx}.pkl"))
+        _HB_FD = None
+        while True:
+            try:
+                ji, job = job_q.get(timeout=0.5)
+            except _queue.Empty:
+                return
+            busy[idx] = ji + 1
+            hb[idx] = time.time()
+            res = _job(job)
+            res["ji"] = ji
+            busy[idx] = 0
+            res_q.put(res)
+
+    procs = {}
+    for i in range(nworkers):
+        pr = ctx.Process(target=worker_main, args=(i,), daemon=True)
+        pr.start()
+        procs[i] = pr
+    done = set()
+    hangs = []
+    while len(done) < len(jobs):
+        try:
+            res = res_q.get(timeout=2.0)
+            done.add(res["ji"])
+            merge(res)
+            continue
+        except _queue.Empty:
+            pass
+        now = time.time()
+        for i, pr in list(procs.items()):
+            ji = busy[i] - 1
+            if ji >= 0 and ji not in done and now - hb[i] > check.hang_limit_s:
+                # stuck: recover the in-flight case, kill and replace the worker
+                case = None
+                try:
+                    with open(os.path.join(tmpdir, f"w{i}.pkl"), "rb") as fh:
+                        raw = fh.read()
+                    case = pickle.loads(raw[8 : 8 + int.from_bytes(raw[:8], "big")])
+                except Exception:  # noqa: BLE001
+                    pass
+                pr.kill()
+                pr.join(5)
+                done.add(ji)
+                ci = jobs[ji][1]
+                hangs.append((check.clauses[ci].name, case, now - hb[i]))
+                busy[i] = 0
+                np_ = ctx.Process(target=worker_main, args=(i,), daemon=True)
+                np_.start()
+                procs[i] = np_
+            elif not pr.is_alive() and ji >= 0 and ji not in done:
+                done.add(ji)
+                errors.append((check.clauses[jobs[ji][1]].name, f"worker process died (exit code {pr.exitcode}) while running job {jobs[ji]}"))
+                busy[i] = 0
+                np_ = ctx.Process(target=worker_main, args=(i,), daemon=True)
+                np_.start()
+                procs[i] = np_
+        if all(not pr.is_alive() for pr in procs.values()) and res_q.empty() and len(done) < len(jobs):
+            # workers exited although jobs remain (should not happen): restart one
+            np_ = ctx.Process(target=worker_main, args=(0,), daemon=True)
+            np_.start()
+            procs[0] = np_
+    for pr in procs.values():
+        pr.join(2)
+        if pr.is_alive():
+            pr.kill()
+    import shutil
+
+    shutil.rmtree(tmpdir, ignore_errors=True)
+    for cname, case, age in hangs:
+        detail = f"the call did not return: no progress for {age:.0f} s inside code that cannot be interrupted (worker killed); case recovered from the worker's in-flight record"
+        if case is None:
+            errors.append((cname, "worker stuck and its in-flight case could not be recovered"))
+        elif check.hang_is_violation:
+            if per_clause[cname]["failure"] is None:
+                per_clause[cname]["failure"] = (enc(case), detail, "hang")
+        else:
+            errors.append((cname, f"{detail}; case {abbreviate(case)!r:.300}"))
 
     for clause in check.clauses:
         if not isinstance(clause, FuzzClause):
